@@ -41,7 +41,7 @@ PROPS = {
                  "the e2e oracle checks alpha everywhere and colour wherever alpha != 0 at 16-bit precision with alpha optimisation on.",
         "note": "IMAGE LEVEL (all sizes, 8/16 bit, gray+alpha and RGBA): cleaned_alpha_visible (cleaned_alpha_channel gives the same picture up to invisible colour); optimizeAlpha_rowKeep (any filter type, "
                 "any previous line: the rewritten row of whole pixels keeps length, alpha bytes and every non-transparent pixel; the colour written is exactly colour-bytes long - alphaColour_length); "
-                "RowKeep is reflexive and transitive, so the heuristic strategies' successive rewrites of one row by several trial filters compose; rows_keep_visible (rows related row by row => "
+                "RowKeep is reflexive and transitive and optimizeAlpha_chain_rowKeep: the heuristic strategies' successive rewrites of one mutable row by any list of trial filters give a kept row; rows_keep_visible (rows related row by row => "
                 "sameVisiblePicture of the whole image); filterLinesStdAlpha_spec (filter_image with alpha, standard strategies, modelled and compared byte for byte: what is written is the plain "
                 "filtering of the rewritten rows - so C19's round trip returns exactly them - and they are kept versions of the original rows). Still by correspondence + oracle only: the alpha-flagged "
                 "reductions (colour key chosen for transparent pixels, blackened palette entries) and the heuristic strategies' choice loop itself.",
